@@ -505,6 +505,7 @@ func main() {
 	r.Register("udppl", runUDPPl)
 	r.Register("frame4", runFrame4)
 	registerMore(r)
+	registerPad(r)
 	if r.Replayed() {
 		return
 	}
@@ -571,6 +572,10 @@ func main() {
 		r.Do("frame4", itoa(c), itoa(g.lenFor(c)), g.seed(), lib.Hex(g.mac()), lib.Hex(g.mac()), itoa(rng.Intn(256)),
 			lib.Hex(a4()), lib.Hex(a4()), itoa(g.port()), itoa(g.port()), lib.Hex(pl))
 		g.more(i)
+		g.padCase(i % 65) // every inner payload size 0..64, repeatedly
+		if i%8 == 0 {
+			g.padCase(g.plenFor(packet.EthMaxSize, 42))
+		}
 	}
 	r.Sample("frame4 64 0 7 001122334455 665544332211 64 c0a80001 c0a80002 68 67 aabbcc => 45-byte frame, DHCP4 class 10")
 }
